@@ -57,7 +57,13 @@ class BoundedStream(io.IOBase):
         return self
 
     def __next__(self) -> bytes:
-        return next(self.stream)
+        # NOTE: Go through readline() so that iteration is subject to the
+        #   same Content-Length bound and accounting as every other read.
+        line = self.readline()
+        if not line:
+            raise StopIteration
+
+        return line
 
     next = __next__
 
@@ -81,11 +87,15 @@ class BoundedStream(io.IOBase):
         # NOTE(kgriffs): Default to reading all remaining bytes if the
         # size is not specified or is out of bounds. This behaves
         # similarly to the IO streams passed in by non-wsgiref servers.
-        if size is None or size == -1 or size > self._bytes_remaining:
+        if size is None or size < 0 or size > self._bytes_remaining:
             size = self._bytes_remaining
 
-        self._bytes_remaining -= size
-        return target(size)
+        result = target(size)
+
+        # NOTE: Deduct what was actually read; a line (or a short read) may
+        #   be shorter than the requested size.
+        self._bytes_remaining -= len(result)
+        return result
 
     def readable(self) -> bool:
         """Return ``True`` always."""
@@ -139,7 +149,22 @@ class BoundedStream(io.IOBase):
 
         """
 
-        return self._read(hint, self.stream.readlines)
+        # NOTE: The wrapped stream's readlines() treats its argument as a
+        #   hint and may read past it, so collect bounded lines instead.
+        if hint is None or hint < 0 or hint > self._bytes_remaining:
+            hint = self._bytes_remaining
+
+        lines: List[bytes] = []
+        total = 0
+        while total < hint:
+            line = self.readline()
+            if not line:
+                break
+
+            lines.append(line)
+            total += len(line)
+
+        return lines
 
     def write(self, data: bytes) -> None:
         """Raise IOError always; writing is not supported."""
